@@ -148,9 +148,10 @@ func (g *c15g) value(depth int) plan.Value {
 		return []plan.Value{
 			plan.Str("12"), plan.Str(" 12"), plan.Str("1.5"), plan.Str("-7"), plan.Str(""), plan.Str("1e3"), plan.Str("0x10"), plan.Str("true"),
 			plan.Float(-2.75), plan.Float(0), plan.Float(1e18), plan.Int(0), plan.Int(-5), plan.Int(1 << 40), plan.Rune(0), plan.Rune('é'),
+			plan.Int(9223372036854775807), plan.Int(-9223372036854775807 - 1), plan.Int(9007199254740993), plan.Float(-0.5), plan.Float(2147483648.5), plan.GoInt(-1),
 			plan.Bytes([]byte{}), plan.Bytes([]byte("42")), plan.Value{T: "array"}, plan.Map(nil), plan.Bool(false), plan.Bool(true),
 			plan.Value{T: "nan"},
-		}[g.r.Intn(23)]
+		}[g.r.Intn(29)]
 	}
 	switch x := g.r.Intn(22); {
 	case x == 0:
@@ -328,8 +329,9 @@ func genC15(r *plan.Rng) *plan.Plan {
 			live = append(live, dst)
 		default:
 			a, b := g.u(), g.u()
-			pa := plan.Map(map[string]plan.Value{"a": plan.GoInt(a), "b": plan.Int(b), "s": plan.Str(fmt.Sprintf("e%d", a))})
-			expr := []string{"a + b * 2", "s + \"x\"", "[a, b][1]", "a > b ? a : b", "{k: a}.k", "len(s) + a"}[r.Intn(6)]
+			pa := plan.Map(map[string]plan.Value{"a": plan.GoInt(a), "b": plan.Int(b), "s": plan.Str(fmt.Sprintf("e%d", a)),
+				"ab": plan.Int(a + 7), "abc": plan.Int(a + 9), "cpy": plan.Int(b + 3)})
+			expr := []string{"a + b * 2", "s + \"x\"", "[a, b][1]", "a > b ? a : b", "{k: a}.k", "len(s) + a", "ab - a", "abc - ab + a", "cpy + 1"}[r.Intn(9)]
 			ops = append(ops, plan.Op{Kind: plan.OpEval, Expr: expr, Val: &pa})
 		}
 	}
